@@ -125,19 +125,41 @@ func vfC07RunCase(c vfC07Case) vfC07Vec {
 	ctx := context.Background()
 	if c.Mode == "direct" {
 		w := &deadlineContextWriter{w: sock, timeout: time.Second, semaphore: make(chan struct{}, 1), quit: make(chan struct{})}
+		// a write that does not come back (a semaphore never returned) is an outcome: WriterHang
+		write := func(f []byte) (vfC07Res, bool) {
+			var r vfC07Res
+			ok, _ := vfWithin(10*time.Second, func() {
+				got, err := w.writeContext(ctx, f)
+				r = vfC07Res{got, vfC07ErrClass(err)}
+			})
+			return r, ok
+		}
 		for i, n := range c.Lens {
-			got, err := w.writeContext(ctx, vfC07Frame(i+1, n))
-			v.Res = append(v.Res, vfC07Res{got, vfC07ErrClass(err)})
+			r, ok := write(vfC07Frame(i+1, n))
+			if !ok {
+				v.Stuck = 1
+				for len(v.Res) < len(c.Lens) {
+					v.Res = append(v.Res, vfC07Res{0, ""})
+				}
+				v.Wire = sock.Wire()
+				return v
+			}
+			v.Res = append(v.Res, r)
 		}
 		v.Wire = sock.Wire()
 		sock.mu.Lock()
 		sock.limit = -1 // the socket would accept more: does the writer still write?
 		sock.mu.Unlock()
-		got, err := w.writeContext(ctx, vfC07Frame(9, 2))
-		v.Res2 = vfC07Res{got, vfC07ErrClass(err)}
+		var ok bool
+		if v.Res2, ok = write(vfC07Frame(9, 2)); !ok {
+			v.Stuck = 1
+			return v
+		}
 		v.Wire2 = sock.Wire()[len(v.Wire):]
-		got, err = w.writeContext(ctx, vfC07Frame(10, 2))
-		v.Res3 = vfC07Res{got, vfC07ErrClass(err)}
+		if v.Res3, ok = write(vfC07Frame(10, 2)); !ok {
+			v.Stuck = 1
+			return v
+		}
 		v.Wire3 = sock.Wire()[len(v.Wire)+len(v.Wire2):]
 		return v
 	}
